@@ -175,3 +175,253 @@ Proof. vm_compute. repeat split; reflexivity. Qed.
 Example C09_nonvacuous_cache :
   deliver (fun i => i) (fill_cache (fun i => i) ex_sched [9; 9; 9; 9; 9; 9; 9]%Z) 7 (2, 5)%Z = [2; 3; 4]%Z.
 Proof. vm_compute. reflexivity. Qed.
+
+(* ================================================================================================================== *)
+(* EXTENSION: every registered loss inside the model, over the reals (C09_Real_Defs.v / C09_Real.v).                     *)
+(* The loss of a sample is the real specification of its kernel owned by C06 (C06_Defs.v); `rloss` has one constructor  *)
+(* per kernel, `registered_losses` maps the 17 ids of loss_t::all() to them.                                            *)
+(* ================================================================================================================== *)
+From Coq Require Import Reals Lra Lia.
+From Coquelicot Require Import Coquelicot.
+From LN Require Import C06_Defs C06_Proofs C09_Real_Defs C09_Real.
+Local Open Scope R_scope.
+
+(* 10. schedule independence at the monoid (R, +): per-thread accumulation + sum_reduce + `accumulator0 /= samples`
+       (divisor translated from reduce.h) is the plain mean, for EVERY valid schedule *)
+Theorem C09R_schedule_independent : forall (f : Z -> R) workers n batch sched,
+  (1 <= workers)%nat -> (1 <= batch)%Z -> (0 <= n)%Z -> valid_schedule workers n batch sched ->
+  rreduced_mean f workers sched n = rnaive_mean f n.
+Proof. exact rreduced_mean_naive. Qed.
+Print Assumptions C09R_schedule_independent.
+
+(* 11. linear::function_t over R, for ANY loss (in particular every registered one): value and every gradient coordinate as
+       the code accumulates them = the definition; the l2 term is written with the real sqrt(l2) exactly as the code does *)
+Theorem C09R_linear_def : forall (lval : list R -> list R -> R) (lgrad : list R -> list R -> list R)
+  isize tsize l1 l2 x T X workers batch sched,
+  0 <= l1 -> 0 <= l2 -> (1 <= workers)%nat -> (1 <= batch)%Z -> valid_schedule workers (Z.of_nat (length X)) batch sched ->
+  rlin_value lval isize tsize l1 l2 x T X workers sched = rlin_naive_value lval isize tsize l1 l2 x T X /\
+  (forall c j, rlin_gW lgrad isize tsize l1 l2 x T X workers sched c j = rlin_naive_gW lgrad isize tsize l1 l2 x T X c j) /\
+  (forall c, rlin_gb lgrad isize tsize x T X workers sched c = rlin_naive_gb lgrad isize tsize x T X c).
+Proof.
+  intros lval lgrad isize tsize l1 l2 x T X workers batch sched H1 H2 Hw Hb Hs. split.
+  - exact (rlin_value_def lval isize tsize l1 l2 x T X workers batch sched H1 H2 Hw Hb Hs).
+  - exact (rlin_grad_def lgrad isize tsize l1 l2 x T X workers batch sched H1 H2 Hw Hb Hs).
+Qed.
+Print Assumptions C09R_linear_def.
+
+(* 12. the three boosting objectives over R *)
+Theorem C09R_gboost_def : forall (lval : list R -> list R -> R) (lgrad : list R -> list R -> list R) workers batch sched,
+  (1 <= workers)%nat -> (1 <= batch)%Z ->
+  (forall x T, valid_schedule workers (Z.of_nat (length T)) batch sched ->
+     rbias_value lval x T workers sched = rbias_naive_value lval x T /\
+     (forall c, rbias_grad lgrad x T workers sched c = rbias_naive_grad lgrad x T c)) /\
+  (forall x groups S0 Wk T smp, valid_schedule workers (Z.of_nat (length smp)) batch sched ->
+     rscale_value lval x groups S0 Wk T smp workers sched = rscale_naive_value lval x groups S0 Wk T smp /\
+     (forall g, rscale_grad lgrad x groups S0 Wk T smp workers sched g = rscale_naive_grad lgrad x groups S0 Wk T smp g)) /\
+  (forall T O (old : list R), valid_schedule workers (Z.of_nat (length O)) batch sched -> length old = length O ->
+     rgrads_value lval T O sched old = rgrads_naive_value lval T O).
+Proof.
+  intros lval lgrad workers batch sched Hw Hb. repeat split.
+  - apply (rbias_def lval lgrad x T workers batch sched Hw Hb H).
+  - intro c. apply (rbias_def lval lgrad x T workers batch sched Hw Hb H).
+  - apply (rscale_def lval lgrad x groups S0 Wk T smp workers batch sched Hw Hb H).
+  - intro g. apply (rscale_def lval lgrad x groups S0 Wk T smp workers batch sched Hw Hb H).
+  - intros T O old Hs Hl. exact (rgrads_value_def lval T O workers batch sched old Hb Hs Hl).
+Qed.
+Print Assumptions C09R_gboost_def.
+
+(* 13. the losses. Smooth kernels (mse, cauchy, class-NLL, savage, tangent, logistic, exponential): along every direction
+       of the output space the value has the derivative <vgrad, direction> (C06's is_derive theorems, class-NLL proved here);
+       convex kernels (mse, mae, pinball, hinge, squared hinge, logistic, exponential): vgrad is a sub-gradient, kinks
+       included; every registered id is in one of the two classes; the epsilon the code puts inside the logarithm of
+       class-NLL moves the value by at most epsilon *)
+Theorem C09R_loss_derivative : forall l, rl_smooth l = true -> loss_deriv (rl_ideal l) (rl_grad l).
+Proof. exact rl_smooth_deriv. Qed.
+Print Assumptions C09R_loss_derivative.
+Theorem C09R_loss_subgradient : forall l, rl_convex l = true -> (forall a, l = RPinball a -> 0 <= a <= 1) ->
+  loss_subgradient (rl_value l) (rl_grad l).
+Proof. exact rl_convex_subgradient. Qed.
+Print Assumptions C09R_loss_subgradient.
+Theorem C09R_registered_covered : forall alpha name l, In (name, l) (registered_losses alpha) ->
+  rl_smooth l = true \/ rl_convex l = true.
+Proof. exact registered_covered. Qed.
+Print Assumptions C09R_registered_covered.
+Theorem C09R_classnll_code_close : forall t o, o <> nil ->
+  0 <= rl_value RClassnll t o - rl_ideal RClassnll t o <= eps52.
+Proof. exact classnll_code_close52. Qed.
+Print Assumptions C09R_classnll_code_close.
+
+(* 14. the gradient formulas of the source are the derivatives of the value. Linear objective, data term: along EVERY
+       direction (dW, db) of parameter space (chain rule through W x + b) ... *)
+Theorem C09R_linear_derivative : forall lval lgrad, loss_deriv lval lgrad ->
+  forall W b dW db T X,
+  same_shape W dW -> length b = length db -> length W = length b ->
+  (forall i, (0 <= i < Z.of_nat (length X))%Z -> length (nthZ T i nil) = length b) ->
+  is_derive (fun s => rlin_data lval (rmadd W (rmscale s dW)) (Rvadd b (Rvscale s db)) T X) 0
+            (rnaive_mean (fun i => Rdot (lgrad (nthZ T i nil) (rlin_out W b (nthZ X i nil))) (rlin_out dW db (nthZ X i nil)))
+                         (Z.of_nat (length X))).
+Proof. exact rlin_data_is_derive. Qed.
+Print Assumptions C09R_linear_derivative.
+(* ... in particular along the coordinates, where it is the formula of the source: mean_i dloss_c(i) x_i(j) for W(c,j),
+   mean_i dloss_c(i) for b(c) *)
+Theorem C09R_linear_derivative_W : forall lval lgrad, loss_deriv lval lgrad ->
+  forall W b T X tsize isize c j,
+  length W = tsize -> List.Forall (fun w => length w = isize) W -> length b = tsize ->
+  (forall i, (0 <= i < Z.of_nat (length X))%Z -> length (nthZ T i nil) = tsize /\ length (nthZ X i nil) = isize) ->
+  (forall t o, length t = length o -> length (lgrad t o) = length o) ->
+  is_derive (fun s => rlin_data lval (rmadd W (rmscale s (runitmat tsize isize c j))) (Rvadd b (Rvscale s (rzeros tsize))) T X) 0
+            (rlin_gW_data lgrad W b T X c j).
+Proof. exact rlin_data_deriv_W. Qed.
+Print Assumptions C09R_linear_derivative_W.
+Theorem C09R_linear_derivative_b : forall lval lgrad, loss_deriv lval lgrad ->
+  forall W b T X tsize isize c,
+  length W = tsize -> List.Forall (fun w => length w = isize) W -> length b = tsize ->
+  (forall i, (0 <= i < Z.of_nat (length X))%Z -> length (nthZ T i nil) = tsize) ->
+  (forall t o, length t = length o -> length (lgrad t o) = length o) ->
+  is_derive (fun s => rlin_data lval (rmadd W (rmscale s (repeat (rzeros isize) tsize))) (Rvadd b (Rvscale s (runit tsize c))) T X) 0
+            (rlin_gb_data lgrad W b T X c).
+Proof. exact rlin_data_deriv_b. Qed.
+Print Assumptions C09R_linear_derivative_b.
+(* regularisation: the l2 term is differentiable with gradient l2 W / #W; the l1 term has the sub-gradient l1 sign(W) / #W
+   (also where an entry of W is 0: the code returns sign(0) = 0) *)
+Theorem C09R_reg_l2_derivative : forall l2 (w d : list R), length d = length w ->
+  is_derive (fun s => rreg_value 0 l2 (Rvadd w (Rvscale s d))) 0 (Rdot (map (fun a => l2 * a / rlen w) w) d).
+Proof. exact rreg_l2_is_derive. Qed.
+Print Assumptions C09R_reg_l2_derivative.
+Theorem C09R_reg_l1_subgradient : forall l1 (w w' : list R), 0 <= l1 -> length w' = length w -> w <> nil ->
+  rreg_value l1 0 w' >= rreg_value l1 0 w + Rdot (map (fun a => l1 * rsign a / rlen w) w) (Rvsub w' w).
+Proof. exact rreg_l1_subgradient. Qed.
+Print Assumptions C09R_reg_l1_subgradient.
+
+(* 15. boosting objectives: bias (every direction and the coordinates), scale (chain rule through s_i + x[cluster_i] w_i:
+       every direction, and the coordinate x[g] where it is the formula of the source with the translated skip test),
+       grads (the parameters are the outputs) *)
+Theorem C09R_bias_derivative : forall lval lgrad, loss_deriv lval lgrad ->
+  forall x T,
+  (forall i, (0 <= i < Z.of_nat (length T))%Z -> length (nthZ T i nil) = length x) ->
+  (forall d, length d = length x ->
+     is_derive (fun s => rbias_naive_value lval (Rvadd x (Rvscale s d)) T) 0
+               (rnaive_mean (fun i => Rdot (lgrad (nthZ T i nil) x) d) (Z.of_nat (length T)))) /\
+  ((forall t o, length t = length o -> length (lgrad t o) = length o) ->
+   forall c, is_derive (fun s => rbias_naive_value lval (Rvadd x (Rvscale s (runit (length x) c))) T) 0 (rbias_naive_grad lgrad x T c)).
+Proof.
+  intros lval lgrad Hd x T HT. split.
+  - intros d Hl. exact (rbias_is_derive lval lgrad Hd x d T Hl HT).
+  - intros Hlen c. exact (rbias_deriv_coord lval lgrad Hd x T c HT Hlen).
+Qed.
+Print Assumptions C09R_bias_derivative.
+Theorem C09R_scale_derivative : forall lval lgrad, loss_deriv lval lgrad ->
+  forall x groups S0 Wk T smp,
+  (forall i, (0 <= i < Z.of_nat (length smp))%Z ->
+     length (nthZ S0 (nthZ smp i 0%Z) nil) = length (nthZ Wk (nthZ smp i 0%Z) nil) /\
+     length (nthZ T i nil) = length (nthZ S0 (nthZ smp i 0%Z) nil)) ->
+  (forall d, length x = length d ->
+     is_derive (fun s => rscale_naive_value lval (Rvadd x (Rvscale s d)) groups S0 Wk T smp) 0
+               (rnaive_mean (fun i => rscale_of d (nthZ groups (nthZ smp i 0%Z) (-1)%Z) *
+                                      Rdot (lgrad (nthZ T i nil) (rscale_out x groups S0 Wk (nthZ smp i 0%Z))) (nthZ Wk (nthZ smp i 0%Z) nil))
+                            (Z.of_nat (length smp)))) /\
+  (forall g, (0 <= g < Z.of_nat (length x))%Z ->
+     is_derive (fun s => rscale_naive_value lval (Rvadd x (Rvscale s (runit (length x) (Z.to_nat g)))) groups S0 Wk T smp) 0
+               (rscale_naive_grad lgrad x groups S0 Wk T smp g)).
+Proof.
+  intros lval lgrad Hd x groups S0 Wk T smp Hs. split.
+  - intros d Hl. exact (rscale_is_derive lval lgrad Hd x d groups S0 Wk T smp Hl Hs).
+  - intros g Hg. exact (rscale_deriv_coord lval lgrad Hd x groups S0 Wk T smp g Hg Hs).
+Qed.
+Print Assumptions C09R_scale_derivative.
+Theorem C09R_grads_derivative : forall lval lgrad, loss_deriv lval lgrad ->
+  forall T O D, length O = length D ->
+  (forall i, (0 <= i < Z.of_nat (length O))%Z ->
+     length (nthZ T i nil) = length (nthZ O i nil) /\ length (nthZ D i nil) = length (nthZ O i nil)) ->
+  is_derive (fun s => rgrads_naive_value lval T (rmadd O (rmscale s D))) 0
+            (rnaive_mean (fun i => Rdot (lgrad (nthZ T i nil) (nthZ O i nil)) (nthZ D i nil)) (Z.of_nat (length O))).
+Proof. exact rgrads_is_derive. Qed.
+Print Assumptions C09R_grads_derivative.
+
+(* 16. at kinks: for the convex losses the mean of the per-sample gradients is a sub-gradient of the mean loss, for any way
+       the outputs move; in particular the gradient of the bias objective is a sub-gradient of the objective *)
+Theorem C09R_mean_subgradient : forall lval lgrad (t o o' : Z -> list R) n,
+  loss_subgradient lval lgrad -> (0 < n)%Z -> (forall i, (0 <= i < n)%Z -> length (o' i) = length (o i)) ->
+  rnaive_mean (fun i => lval (t i) (o' i)) n >=
+  rnaive_mean (fun i => lval (t i) (o i)) n + rnaive_mean (fun i => Rdot (lgrad (t i) (o i)) (Rvsub (o' i) (o i))) n.
+Proof. exact mean_loss_subgradient. Qed.
+Print Assumptions C09R_mean_subgradient.
+Theorem C09R_bias_subgradient : forall lval lgrad x x' T,
+  loss_subgradient lval lgrad -> T <> nil -> length x' = length x ->
+  rbias_naive_value lval x' T >= rbias_naive_value lval x T +
+    rnaive_mean (fun i => Rdot (lgrad (nthZ T i nil) x) (Rvsub x' x)) (Z.of_nat (length T)).
+Proof. exact rbias_subgradient. Qed.
+Print Assumptions C09R_bias_subgradient.
+
+(* 17. the floating-point re-association clause with an explicit constant. `sumtree` = ANY reduction tree (Eigen's unspecified
+       summation order inside a chunk, the per-thread accumulators, sum_reduce); every inner node is one rounded addition.
+       First for an abstract rounding operator satisfying the standard model on representable numbers ... *)
+Theorem C09_fp_reassociation_any_rounding : forall (rnd : R -> R) (fmt : R -> Prop) (u : R),
+  0 <= u -> (forall x, fmt (rnd x)) ->
+  (forall a b, fmt a -> fmt b -> exists d, Rabs d <= u /\ rnd (a + b) = (a + b) * (1 + d)) ->
+  forall t1 t2, all_fmt fmt t1 -> all_fmt fmt t2 -> Permutation (leaves t1) (leaves t2) ->
+  INR (length (leaves t1) - 1) * u < 1 ->
+  Rabs (tsum rnd t1 - tsum rnd t2) <= 2 * gamma u (length (leaves t1) - 1) * rabs_sum (leaves t1).
+Proof. exact fp_reassociation. Qed.
+Print Assumptions C09_fp_reassociation_any_rounding.
+(* ... then for binary64, round to nearest even, gradual underflow (Flocq: FLT_exp (-1074) 53; u = 2^-53): two summation
+   orders / groupings of the same n terms differ by at most 2 gamma_{n-1} sum|terms|; one order is within gamma_{n-1}
+   sum|terms| of the exact sum; the mean the code returns (sum over any tree whose leaves are the terms and the zeros of the
+   cleared accumulators, one rounded division) is within gamma_k mean|terms| + 2^-1075 of the exact mean, k = #leaves *)
+Theorem C09_fp_reassociation : forall t1 t2, all_fmt fmt64 t1 -> all_fmt fmt64 t2 -> Permutation (leaves t1) (leaves t2) ->
+  INR (length (leaves t1) - 1) * u64 < 1 ->
+  Rabs (tsum rnd64 t1 - tsum rnd64 t2) <= 2 * gamma u64 (length (leaves t1) - 1) * rabs_sum (leaves t1).
+Proof. exact fp_reassociation64. Qed.
+Print Assumptions C09_fp_reassociation.
+Theorem C09_fp_tree_sum : forall t, all_fmt fmt64 t -> INR (length (leaves t) - 1) * u64 < 1 ->
+  Rabs (tsum rnd64 t - rsum (leaves t)) <= gamma u64 (length (leaves t) - 1) * rabs_sum (leaves t).
+Proof. exact fp_tree_sum64. Qed.
+Print Assumptions C09_fp_tree_sum.
+Theorem C09_fp_mean : forall t vs z N, all_fmt fmt64 t -> Permutation (leaves t) (vs ++ repeat 0 z) -> 0 < N ->
+  INR (length vs + z) * u64 < 1 ->
+  Rabs (rnd64 (tsum rnd64 t / N) - rsum vs / N) <= gamma u64 (length vs + z) * (rabs_sum vs / N) + eta64.
+Proof. exact fp_mean64. Qed.
+Print Assumptions C09_fp_mean.
+
+(* the check the driver evaluates on the measured per-sample terms of every run (extracted `fp_mean_okb`, exact rational
+   arithmetic) is exactly the bound of C09_fp_mean: k = #terms + #cleared accumulators *)
+Theorem C09_fp_mean_check_sound : forall k vs fx, (0 <= k)%Z -> vs <> nil -> IZR k * u64 < 1 -> fp_mean_okb k vs fx = true ->
+  Rabs (Q2R fx - rsum (map Q2R vs) / IZR (Z.of_nat (length vs))) <=
+  gamma u64 (Z.to_nat k) * (rabs_sum (map Q2R vs) / IZR (Z.of_nat (length vs))) + eta64.
+Proof. exact fp_mean_okb_sound. Qed.
+Print Assumptions C09_fp_mean_check_sound.
+
+(* ---- non-vacuity of the extension ---------------------------------------------------------------------------------- *)
+(* the schedule of C09_nonvacuous_schedule is valid (theorems 10-12) *)
+Example C09R_nonvacuous_schedule : valid_schedule 2 7 3 ex_sched /\ (1 <= 2)%nat /\ (1 <= 3)%Z.
+Proof. split; [apply schedule_okb_sound; vm_compute; reflexivity | split; lia]. Qed.
+(* the hypothesis `loss_deriv` / `loss_subgradient` of 14-16 is inhabited by registered losses; pinball's alpha range too *)
+Example C09R_nonvacuous_losses :
+  loss_deriv (rl_ideal RLogistic) (rl_grad RLogistic) /\ loss_deriv (rl_ideal RClassnll) (rl_grad RClassnll) /\
+  loss_subgradient (rl_value RHinge) (rl_grad RHinge) /\ loss_subgradient (rl_value (RPinball (/ 2))) (rl_grad (RPinball (/ 2))) /\
+  (forall t o, length t = length o -> length (rl_grad RLogistic t o) = length o).
+Proof.
+  split; [|split; [|split; [|split]]].
+  - apply rl_smooth_deriv; reflexivity.
+  - apply rl_smooth_deriv; reflexivity.
+  - apply rl_convex_subgradient; [reflexivity | discriminate].
+  - apply rl_convex_subgradient; [reflexivity | intros a E; injection E as <-; lra].
+  - intros t o H. cbn [rl_grad]. unfold loss_g. revert o H. induction t as [|a t IH]; intros [|b o] H; cbn in *; try discriminate; auto.
+Qed.
+(* shapes of 14 / 15: a 2 x 2 weight matrix and its unit perturbation *)
+Example C09R_nonvacuous_shapes : same_shape [[1; 2]; [3; 4]] (runitmat 2 2 1 0) /\ runitmat 2 2 1 0 = [[0; 0]; [1; 0]] /\
+  rlin_out [[1; 2]; [3; 4]] [5; 6] [1; 1] = [1 * 1 + (2 * 1 + 0) + 5; 3 * 1 + (4 * 1 + 0) + 6].
+Proof. split; [|split]; try reflexivity. repeat constructor. Qed.
+(* 17: a tree of representable numbers exists, and n u < 1 for every n the property considers (n <= 2^52) *)
+Example C09_nonvacuous_fp_check : fp_mean_okb 3 [1; 1 # 2]%Q (3 # 4)%Q = true /\ fp_mean_okb 3 [1; 1 # 2]%Q ((3 # 4) + (1 # 1000000000000000))%Q = false /\
+  IZR 3 * u64 < 1.
+Proof. split; [vm_compute; reflexivity | split; [vm_compute; reflexivity | unfold u64; lra]]. Qed.
+Example C09_nonvacuous_fp : all_fmt fmt64 (Node (Node (Leaf 1) (Leaf 0)) (Leaf 1)) /\ INR (3 - 1) * u64 < 1 /\
+  Permutation (leaves (Node (Node (Leaf 1) (Leaf 0)) (Leaf 1))) ([1; 1] ++ repeat 0 1).
+Proof.
+  assert (F1 : fmt64 1).
+  { change 1 with (Flocq.Core.Raux.bpow Flocq.Core.Zaux.radix2 0). apply Flocq.Core.Generic_fmt.generic_format_bpow.
+    unfold fexp64, Flocq.Core.FLT.FLT_exp. cbn. lia. }
+  assert (F0 : fmt64 0) by apply Flocq.Core.Generic_fmt.generic_format_0.
+  split; [cbn; auto|]. split; [unfold u64; cbn; lra|]. cbn. apply perm_skip. apply perm_swap.
+Qed.
